@@ -394,13 +394,18 @@ func evalC06(r *runner, u *parseUnit, c ParseCase) string {
 		r.col.Class("input_sentence_skipped")
 		return ""
 	}
-	o := u.ps.NewSession().Parse(u.ptoks(c.Toks), -1, false)
+	// the message is rendered (twice) before the fields are read: rendering an
+	// error must not change what it says was expected
+	o := u.ps.NewSession().Parse(u.ptoks(c.Toks), -1, true)
 	r.col.Eval()
 	if m := sane(u, c, o); m != "" {
 		return m
 	}
 	if o.ErrNil {
 		return fmt.Sprintf("grammar:\n%s\ninput %v is not a sentence but Parse returned err==nil", u.src, c.Toks)
+	}
+	if strings.Contains(o.ErrString, "<<< a second Error() call") {
+		return fmt.Sprintf("grammar:\n%s\ninput %v: %s", u.src, c.Toks, o.ErrString)
 	}
 	if o.Err == nil {
 		return fmt.Sprintf("grammar:\n%s\ninput %v: Parse returned an error of unexpected type: %s", u.src, c.Toks, o.ErrOther)
